@@ -131,10 +131,10 @@ class Qsc():
         freedom from a 1D numpy vector.
         """
         assert len(x) == self.nfourier * 4 + 7
-        self.rc = x[self.nfourier * 0 : self.nfourier * 1]
-        self.zs = x[self.nfourier * 1 : self.nfourier * 2]
-        self.rs = x[self.nfourier * 2 : self.nfourier * 3]
-        self.zc = x[self.nfourier * 3 : self.nfourier * 4]
+        self.rc = np.copy(x[self.nfourier * 0 : self.nfourier * 1])
+        self.zs = np.copy(x[self.nfourier * 1 : self.nfourier * 2])
+        self.rs = np.copy(x[self.nfourier * 2 : self.nfourier * 3])
+        self.zc = np.copy(x[self.nfourier * 3 : self.nfourier * 4])
         self.etabar = x[self.nfourier * 4 + 0]
         self.sigma0 = x[self.nfourier * 4 + 1]
         self.B2s = x[self.nfourier * 4 + 2]
